@@ -1,0 +1,9 @@
+//go:build !verif
+
+package lisp
+
+// verifEv is the verification trace hook.  Without the `verif` build tag it is
+// an empty function that the compiler inlines away.
+func verifEv(s *CallStack, ev string, a, b int, x, y string) {}
+
+func verifBool(b bool) string { return "" }
